@@ -56,8 +56,9 @@ class Result:
         return self
 
 
-PYL_OPS = {"cksum", "isvalid", "inputmode", "protocol", "getbits", "parse"}
+PYL_OPS = {"cksum", "isvalid", "inputmode", "protocol", "getbits", "parse", "readp"}
 PYL_MAX = 25000
+PYL_MAX_READP = 4000      # whole reader runs: `__next__` → `read` → `_parse_*` / `_do_error` interpreted per pass
 
 
 def do_corr(res, lines):
@@ -66,6 +67,10 @@ def do_corr(res, lines):
     driver then answers by interpreting the working tree's code under the PyLite semantics, so CPython, the hand model
     and the interpreted code are compared on the same inputs."""
     pyl = [("pyl-" + l) for l in lines if l.split(" ", 1)[0] in PYL_OPS and len(l) < 20000]
+    if pyl and pyl[0].startswith("pyl-readp"):
+        pyl = [l for l in pyl if len(l) < 4000]
+        if len(pyl) > PYL_MAX_READP:
+            pyl = random.Random(len(pyl)).sample(pyl, PYL_MAX_READP)
     if len(pyl) > PYL_MAX:
         pyl = random.Random(len(pyl)).sample(pyl, PYL_MAX)
     if pyl:
@@ -73,6 +78,12 @@ def do_corr(res, lines):
         res.count(n2)
         res.coverage["pylite_interpreted_ops"] = res.coverage.get("pylite_interpreted_ops", 0) + n2
         for l, a, b in diffs2:
+            # an operation the PyLite fragment cannot run (operand combination, builtin or name outside the fragment,
+            # function not translatable) says nothing about the code: it is counted, not reported as a difference —
+            # the hand model answers the same operation below
+            if b in ("unsupported", "bad-value", "err ?", "err NameError") or "pyl-" in b or "<unsupported>" in b:
+                res.coverage["pylite_not_interpretable"] = res.coverage.get("pylite_not_interpretable", 0) + 1
+                continue
             res.diffs.append(dict(op=l, py=a, model=b))
     n, diffs, py = corr.compare(lines)
     res.count(n)
